@@ -389,7 +389,7 @@ fn main() {
     }
 
     // violations: known findings vs new ones
-    let findings = Findings::load(&format!("{}/KNOWN_FINDINGS.txt", simcore::VERIF_DIR)).unwrap_or_else(|e| harness_error(&e));
+    let findings = Findings::load(&format!("{}/KNOWN_FINDINGS.txt", simcore::verif_dir())).unwrap_or_else(|e| harness_error(&e));
     let mut new_violations = Vec::new();
     let mut known_lines = Vec::new();
     for (sig, (idx, cnt, detail)) in &acc.violations {
@@ -421,7 +421,7 @@ fn main() {
             (p.scenario.clone(), o.trace.choices.clone(), o, detail.clone(), json!({"note": "minimised trace did not reproduce; original kept"}))
         };
         let _ = fsched;
-        let path = format!("{}/replays/{PROP}-{}-{}.json", simcore::VERIF_DIR, base_seed, idx);
+        let path = format!("{}/replays/{PROP}-{}-{}.json", simcore::verif_dir(), base_seed, idx);
         write_replay(&path, base_seed, *idx, &fsc, &fout.trace.choices, sig, &fdetail, event_hash(&fout), info);
         // verify the replay file in a fresh process before reporting it
         let exe = std::env::current_exe().unwrap_or_else(|e| harness_error(&format!("current_exe: {e}")));
@@ -495,7 +495,7 @@ fn main() {
             "sampled, not exhaustive: a clean batch is evidence, not proof"
         ],
     });
-    let ev_path = format!("{}/evidence/{PROP}.json", simcore::VERIF_DIR);
+    let ev_path = format!("{}/evidence/{PROP}.json", simcore::verif_dir());
     simcore::write_json_atomic(&ev_path, &ev);
     println!(
         "runs={} steps={} distinct={} nontrivial={} overlap_runs={} finisher_overlap={} violating_runs={} wall={:.1}s digest={:016x}",
